@@ -345,3 +345,25 @@ package policy
 //@ func Construct
 //@   requires forall i int :: 0 <= i && i < len(cstors) ==> cstors[i] != nil
 //@   ensures [C14] built: result1 == nil ==> assembledFrom(result0, cstors)
+//@
+//@ // ---- C20: printing a policy writes nothing that existed before the call ---------------------------
+//@ func (Policy).String
+//@   requires forall j int :: 0 <= j && j < len(p) ==> p[j] != nil && wfStmt(p[j])
+//@   assigns [C20] nothing
+//@   loop 0: invariant 0 <= k && k <= len(p) && fresh(childs) && len(childs) == len(p)
+//@           decreases len(p) - k
+//@ func (equality).String
+//@   assigns [C20] nothing
+//@ func (wildcard).String
+//@   assigns [C20] nothing
+//@ func (negation).String
+//@   requires n.statement != nil && wfStmt(n.statement)
+//@   assigns [C20] nothing
+//@ func (quantifier).String
+//@   requires n.statement != nil && wfStmt(n.statement)
+//@   assigns [C20] nothing
+//@ func (connective).String
+//@   requires forall j int :: 0 <= j && j < len(c.statements) ==> c.statements[j] != nil && wfStmt(c.statements[j])
+//@   assigns [C20] nothing
+//@   loop 0: invariant 0 <= k && k <= len(c.statements) && fresh(childs) && len(childs) == len(c.statements)
+//@           decreases len(c.statements) - k
